@@ -377,8 +377,9 @@ func VH_C01_History(cfg, axis int) {
 		tail := 0
 		if axis == 2 {
 			// 0: XID; 1: COMMIT query, then a DDL; 2: XID, then a DDL;
-			// 3: XID, then the log rotates inside the dump (second FORMAT_DESCRIPTION) and a DDL follows in the new file
-			tail = vhChoose(4)
+			// 3: XID, then the log rotates inside the dump (second FORMAT_DESCRIPTION) and a DDL follows in the new file;
+			// 4: as 3, and the new file announces the OTHER checksum algorithm (binlog_checksum was switched)
+			tail = vhChoose(5)
 		}
 		if tail == 1 {
 			// closed by a COMMIT query event (non-transactional engines) instead of XID
@@ -391,13 +392,20 @@ func VH_C01_History(cfg, axis int) {
 		boundary = tx.next
 		txs = append(txs, tx)
 		ddlFile := ""
-		if tail == 3 {
+		if tail == 3 || tail == 4 {
 			rb := &replication.VHWriter{}
 			rb.U64(4)
 			rb.Str("bin.000008")
 			emit(4, vhU32(), rb.Bytes(), true)  // the real ROTATE event at the end of the old file
 			emit(4, 0, rb.Bytes(), false)       // the new file's head as a master serves it: fake ROTATE ...
 			off = 4
+			if tail == 4 {
+				crcOn = !crcOn
+				alg = byte(replication.BinlogChecksumAlgOff)
+				if crcOn {
+					alg = replication.BinlogChecksumAlgCRC32
+				}
+			}
 			emit(15, vhU32(), replication.VHFormatBody(alg, width), true) // ... and its FORMAT_DESCRIPTION
 			boundary = 4 // the target of the rotation
 			ddlFile = "bin.000008"
